@@ -1,1 +1,15 @@
-fn main() {}
+//! Monitors for the node's persistent (SQLite) stores.
+//! C24 (node databases behave like their simple models).
+mod c24;
+
+fn main() {
+    vcommon::install_panic_hook();
+    let args = vcommon::Args::parse();
+    match args.prop.as_str() {
+        "C24" => c24::run(&args),
+        p => {
+            eprintln!("h-db: unknown property {p}");
+            std::process::exit(2);
+        }
+    }
+}
